@@ -161,19 +161,18 @@ class Builder:
             return ops.Kernel(x1, x2, _rbf, r.get("bs1", max(1, n // 2)), r.get("bs2", max(1, n // 2)))
         if k == "sparse":
             n, dt, s = r["n"], r.get("dtype", "f8"), r.get("seed", 0)
-            nnz = max(1, 2 * n)
+            nnz = max(1, min(2 * n, n * n))
             ALLOC.pause()
             try:
                 g = _gen(s)
-                ri0 = g.integers(0, n, size=nnz).astype(np.int64)
-                ci0 = g.integers(0, n, size=nnz).astype(np.int64)
+                cells = np.sort(g.permutation(n * n)[:nnz])  # distinct cells, row-major order
+                ri0 = (cells // n).astype(np.int64)
+                ci0 = (cells % n).astype(np.int64)
             finally:
                 ALLOC.resume()
             data = self.array({"shape": [nnz], "dtype": dt, "seed": s})
-            ri = self.ctx.ledger.get_or_make("sparse_r:%d:%d" % (n, s),
-                                             lambda: ri0)
-            ci = self.ctx.ledger.get_or_make("sparse_c:%d:%d" % (n, s),
-                                             lambda: ci0)
+            ri = self.ctx.ledger.get_or_make("sparse_r:%d:%d" % (n, s), lambda: ri0)
+            ci = self.ctx.ledger.get_or_make("sparse_c:%d:%d" % (n, s), lambda: ci0)
             return ops.Sparse(data, ri, ci, shape=(n, n))
         if k == "generic":
             # array-less operator through the public generic constructor
